@@ -386,7 +386,7 @@ def saw : P String := do
   if out.status != "ok" then return s!"fail {comp} throws_{out.status}"
   let cv := cornerVals i.ubQ
   let M := maxQ (maxAbsL [cv, i.vals]) 1
-  let model := sawtooth srcVariant i.point i.ubQ i.A i.pts i.vals
+  let model := sawtoothG Gen.C12Src.sawGuard srcVariant i.point i.ubQ i.A i.pts i.vals
   -- the as-found source builds the weights from an uninitialised local on some inputs; whatever garbage comes
   -- out is reported under one clause name
   let unspecified := match model with | some ⟨_, none⟩ => true | _ => false
